@@ -188,6 +188,54 @@ def old_draw(m, meta, trials=300):
     return {"reproduced": bool(problems), "input": "seeded random draws (old API) on the concrete VT model", "observed": problems[:2]}
 
 
+def old_validation(m, meta):
+    """old API: the documented validation table of BaseImage.draw() - padding width always, padding height for animations,
+    render size per check_size / scroll / animation - swept over all flag combinations; a rejected draw writes nothing, an
+    accepted one is not rejected"""
+    import tests  # noqa: F401
+    from term_image.image import BlockImage
+    from term_image.exceptions import InvalidSizeError
+    import term_image.image.common as common
+    common.time.sleep = lambda s: None
+    TW, TH = tuple(common.get_terminal_size())
+    problems = []
+    for nfr in (1, 3):
+        for animate in ((True, False) if nfr > 1 else (True,)):
+            for check_size in (True, False):
+                for scroll in (True, False):
+                    for what, pw, ph, height in (("fits", 0, 0, 2), ("pad_width=terminal", TW, 0, 2), ("pad_width>terminal", TW + 1, 0, 2),
+                                                 ("pad_width>>terminal", 3 * TW, 0, 2), ("pad_height>terminal", 0, TH + 1, 2),
+                                                 ("pad_width relative", -3, -2, 2), ("render taller than terminal", 0, 0, TH + 5)):
+                        image = BlockImage(_gif(nfr))
+                        image.set_size(height=height)
+                        animation = nfr > 1 and animate
+                        w, h = image.rendered_size
+                        exp = None
+                        if pw > TW or (animation and ph > TH):
+                            exp = ValueError
+                        elif animation and (w > TW or h > TH):
+                            exp = InvalidSizeError
+                        elif not animation and check_size and (w > TW or (h > TH and not scroll)):
+                            exp = InvalidSizeError
+                        buf = _Tty()
+                        old = sys.stdout
+                        sys.stdout = buf
+                        got = None
+                        try:
+                            try:
+                                image.draw(pad_width=pw, pad_height=ph, animate=animate, check_size=check_size, scroll=scroll, repeat=1)
+                            except (ValueError, InvalidSizeError) as e:
+                                got = type(e)
+                        finally:
+                            sys.stdout = old
+                        if got is not exp or (exp is not None and buf.getvalue()):
+                            problems.append({"frames": nfr, "case": what, "draw": dict(pad_width=pw, pad_height=ph, animate=animate, check_size=check_size, scroll=scroll),
+                                             "terminal": (TW, TH), "rendered_size": (w, h), "expected": getattr(exp, "__name__", None), "got": getattr(got, "__name__", None),
+                                             "written": buf.getvalue()[:30]})
+    return {"reproduced": bool(problems), "input": "validation table of the old draw(): every (frames, animate, check_size, scroll) x padding / render sizes around the terminal size",
+            "observed": problems[:3]}
+
+
 def old_draw_wezterm(m, meta):
     """ITerm2Image animations on WezTerm (cells erased once before the first frame): every padding height / alignment of small
     GIFs on the concrete VT model - image rows where the padding puts them, nothing touched outside the padded box, cursor on
